@@ -438,6 +438,26 @@ FLEET['G15'] = dict(
     values=['node', 'mnode'],
 )
 
+
+# right recursion with an error alternative and NO empty rule: every character of a cstring_buffer literal keeps one
+# state on the stack, and an error at end of input is shifted on top of all of them (the last fixed-capacity slot)
+FLEET['G16'] = dict(
+    terms=[
+        ('x', T('char', 'x')),
+        ('semi', T('char', ';')),
+        ('y', T('char', 'y')),
+    ],
+    nterms=['S'],
+    root='S',
+    rules=[
+        ('S', ['x', 'S'], 'plain'),
+        ('S', ['semi'], 'plain'),
+        ('S', ['error'], 'plain'),
+        ('S', ['y', 'S'], 'ctx'),
+    ],
+    values=['node', 'pnode'],
+)
+
 # standalone regex matchers (regex::expr<P>)
 REGEXES = {
     'R1': 'ab*c',
